@@ -58,6 +58,7 @@ class Monitor:
         self.hits = []
         self.pubs = {}          # (t, v) -> number of accepted publishes
         self.step = 0
+        self.sender_closes = 0  # sender handles closed or dropped so far
 
     def new_rx(self, kind, subs, cap):
         return {"live": True, "closed": False, "kind": kind, "subs": list(subs), "q": [], "cap": cap,
@@ -119,8 +120,11 @@ class Monitor:
             if x["q"]:
                 self.hit("C08:disc-not-drained", "receiver %d observed Disconnected with %r still owed" % (r, x["q"]))
             elif self.any_open():
-                self.hit("C08:disc-with-live-sender", "receiver %d observed Disconnected while sender handle(s) %r are open" % (
-                    r, sorted(k for k, t in self.tx.items() if t["live"] and not t["closed"])))
+                opn = sorted(k for k, t in self.tx.items() if t["live"] and not t["closed"])
+                if self.sender_closes:
+                    self.hit("C08:disc-with-live-sender", "receiver %d observed Disconnected after %d sender handle(s) were closed/dropped, while sender handle(s) %r are open" % (r, self.sender_closes, opn))
+                else:
+                    self.hit("C08:disc-no-sender-closed", "receiver %d observed Disconnected although no sender handle was ever closed or dropped (open: %r)" % (r, opn))
 
     def run(self):
         for i, (op, (rs, ws)) in enumerate(zip(self.ops, self.outs)):
@@ -150,10 +154,12 @@ class Monitor:
                 self.tx[a[1]] = {"live": True, "closed": self.tx[a[0]]["closed"], "kind": "s"}
             elif k == "xs" and rs[0] == "ok":
                 self.tx[a[0]]["closed"] = True
+                self.sender_closes += 1
                 self.sender_gone()
             elif k == "ds" and rs[0] == "ok":
                 was = self.tx[a[0]]["live"] and not self.tx[a[0]]["closed"]
                 self.tx[a[0]]["live"] = False
+                self.sender_closes += 1
                 if was:
                     self.sender_gone()
             elif k == "sub" and rs[0] == "ok":
@@ -339,4 +345,33 @@ CORPUS = [
 
 ENGINE = TopicEngine()
 
-PROPS = {}
+_INFO = {"name": "E-CHANOPS-topic",
+         "path": "coq/Chan/TopicOps.v (model), coq/Chan/TopicSpec.v (reference), coq/Proofs/Topic*.v, coq/Props/C08.v, "
+                 "ocaml/eng_topic.ml, harness/seqdrv/src/bin/topic.rs, vlib/engines_topic.py",
+         "kind": "K2 op-level model of fibre::spmc::topic (sync+async handles; one API call / poll / future drop = one step) "
+                 "with pre-/post-fix switches; theorems for all histories against an executable reference; D1 tie"}
+
+_ASSUME = [
+    "topic: K2 model, sequential histories only (one API call = one atomic step); interleavings of send's snapshot-then-deliver with subscribe/unsubscribe/close (DESIGN C08_sections, K3') are NOT covered",
+    "topic: papaya HashMap / left_right subscriber lists / HashSet are modelled as association lists; hash iteration order is unobservable (per-op wake sets are compared sorted)",
+    "topic: receiver_count (AtomicUsize, wrapping fetch_sub) is modelled in Z; fewer than 2^64 handle operations",
+    "topic: blocking TopicReceiver::recv() is not executed (same mailbox code as recv_timeout, which is tied with a zero timeout); Weak/Arc lifetimes are modelled by handle liveness",
+    "topic: model fix switches = %s (0000 = current /repo; flip together with the patches in docs/topic.md)" % MODEL_FIXES,
+]
+
+_W = MODEL_FIXES
+PROPS = {
+    "C08": {
+        "engines": [ENGINE],
+        "witness": {
+            "F-04": (ENGINE, _W + " s 4 sub 0 1 cls 0 1 pub 0 1 7 ds 1 try 0 try 0", "C08:disc-with-live-sender"),
+            "F-05": (ENGINE, _W + " s 4 ds 0 try 0", "C08:no-disc-unsubscribed"),
+            "F-14": (ENGINE, _W + " s 4 clr 0 1 sub 0 1 xr 0 pub 0 1 7 try 0", "C08:closed-rx-still-receives"),
+        },
+        "assumptions": _ASSUME,
+        "covers": "topic (sync+async): routing exactness, full-mailbox-only omission, dropped counter, publish non-blocking, "
+                  "Disconnected iff all sender handles gone and drained -- full statement proved for the patched model, "
+                  "refuted on the faithful model by F-04/F-05/F-14 with the exact exception classes proved",
+        "engine_info": _INFO,
+    },
+}
